@@ -255,3 +255,23 @@ def subtractions(prog, pv, pvn, body, depth=0):
         pol = 1 if on_pos and not on_neg else -1 if on_neg and not on_pos else None
         out[lp["header"]] = {"A": pv.of_operand(body, lp["iter"]), "B": pv.of_operand(body, ct.args[0]), "pol": pol, "line": ct.line}
     return out
+
+
+# std methods that CHANGE a text (or take it apart) between where it comes from and where it is compared / parsed.  A deny-list:
+# accessors, borrows, iteration over a collection of records and `?` are not on it.
+STR_CHANGE = {"trim", "trim_start", "trim_end", "trim_matches", "trim_start_matches", "trim_end_matches", "trim_left", "trim_right", "to_lowercase", "to_uppercase", "to_ascii_lowercase",
+              "to_ascii_uppercase", "make_ascii_lowercase", "make_ascii_uppercase", "replace", "replacen", "strip_prefix", "strip_suffix", "split", "splitn", "rsplit", "rsplitn", "split_once",
+              "rsplit_once", "split_whitespace", "split_at", "split_terminator", "lines", "chars", "char_indices", "bytes", "repeat", "escape_default", "escape_debug", "truncate", "pop",
+              "remove", "drain", "retain", "skip", "take", "rev", "step_by", "filter", "eq_ignore_ascii_case", "normalize", "nfc", "nfkc", "concat", "join", "format"}
+
+
+def text_changes(prog, pv, body, op, slicing_ok=False):
+    """names of text-changing std calls applied (inside `body`) to the value of an operand; slicing (`get` / `index` with a range) counts
+    unless slicing_ok"""
+    out = set()
+    for a in pv.of_operand(body, op):
+        if a[0] == "call" and a[3] == body.id and a[2] not in prog.bodies and a[1] not in prog.bodies:
+            m = a[1].rsplit("::", 1)[-1].split("::<")[0]
+            if m in STR_CHANGE or (not slicing_ok and m in ("get", "index", "get_unchecked") and "Range" in (a[2] or "")):
+                out.add(m)
+    return sorted(out)
